@@ -1,9 +1,10 @@
 #!/bin/bash
-# seed_round.sh <dir with <id>-<suffix>/ sub-directories>: development tool; runs tools/seed_eval.py on each
-# (serially: each one patches /repo, runs the registered quick check and undoes the patch)
+# seed_round.sh <dir with <id>-<suffix>/ sub-directories> [extra seed_eval args]: development tool; runs
+# tools/seed_eval.py on each (serially: each one patches the repository, runs the registered quick check and undoes it)
 cd "$(dirname "$0")/.."
-for d in "$1"/C*-s*; do
+d0="$1"; shift
+for d in "$d0"/C*-s*; do
   name=$(basename "$d"); pid=${name%%-*}
   echo "=== $name"
-  python3 tools/seed_eval.py "$d" "$pid" "$name" 2>&1 | tail -8
+  python3 tools/seed_eval.py "$d" "$pid" "$name" "$@" 2>&1 | tail -4
 done
